@@ -911,7 +911,7 @@ func (fc *FuncCtx) run(fr *Frame, st0 *State, args []Val, fvs []Val) (*State, []
 		if len(sts) == 0 {
 			continue
 		}
-		st := mergeStates(fc.p, sts)
+		st, liveIdx, sels := mergeStatesSel(fc.p, sts)
 		if st.dead {
 			continue
 		}
@@ -925,12 +925,8 @@ func (fc *FuncCtx) run(fr *Frame, st0 *State, args []Val, fvs []Val) (*State, []
 				unsupp("phi at loop header in %s", fn)
 			}
 			var v Val
-			first := true
-			for k, pr := range inPred[b] {
-				es := sts[k]
-				if es.dead || es.pc == False {
-					continue
-				}
+			for n, k := range liveIdx {
+				pr := inPred[b][k]
 				// find edge index of pr among b.Preds
 				var ev Val
 				found := false
@@ -944,11 +940,10 @@ func (fc *FuncCtx) run(fr *Frame, st0 *State, args []Val, fvs []Val) (*State, []
 				if !found {
 					unsupp("phi edge not found")
 				}
-				if first {
+				if n == 0 {
 					v = ev
-					first = false
 				} else {
-					v = mergeVal(es.pc, ev, v)
+					v = mergeVal(sels[n], ev, v)
 				}
 			}
 			fr.regs[phi] = v
@@ -966,21 +961,16 @@ func (fc *FuncCtx) run(fr *Frame, st0 *State, args []Val, fvs []Val) (*State, []
 	for _, r := range rets {
 		rsts = append(rsts, r.st)
 	}
-	out := mergeStates(fc.p, rsts)
+	out, liveIdx, sels := mergeStatesSel(fc.p, rsts)
 	var vals []Val
 	nres := fn.Signature.Results().Len()
 	for i := 0; i < nres; i++ {
 		var v Val
-		first := true
-		for _, r := range rets {
-			if r.st.dead || r.st.pc == False {
-				continue
-			}
-			if first {
-				v = r.vals[i]
-				first = false
+		for n, k := range liveIdx {
+			if n == 0 {
+				v = rets[k].vals[i]
 			} else {
-				v = mergeVal(r.st.pc, r.vals[i], v)
+				v = mergeVal(sels[n], rets[k].vals[i], v)
 			}
 		}
 		vals = append(vals, v)
@@ -1142,6 +1132,26 @@ func (fc *FuncCtx) loopInvariants(fr *Frame, li *loopInfo, entry *State, mi *mod
 		out = append(out, invariant{text: "auto:frame:" + k, auto: true, at: func(st *State) *Term {
 			return fc.frameFormula(k, initHeap(fc.p, k), st.H(fc.p, k), fc.entry.alloc, fc.frameLocs)
 		}})
+	}
+	// loop-level frame (relative to the state at loop entry)
+	if li.lc != nil && li.lc.ModifiesSet {
+		env := fc.envFor(fr, entry, nil, true)
+		fc.bindLoopVars(fr, li, entry, env)
+		var locs []ModLoc
+		for _, m := range li.lc.Modifies {
+			ls, err := elabModLoc(fc.p, m, env)
+			if err != nil {
+				panic(elabErr{fmt.Sprintf("%s:%d: loop %d modifies %s: %v", c.File, c.Line, li.ordinal, m, err)})
+			}
+			locs = append(locs, ls...)
+		}
+		for _, k := range hs {
+			k := k
+			before := entry.H(fc.p, k)
+			out = append(out, invariant{text: "loopframe:" + k, auto: true, at: func(st *State) *Term {
+				return fc.frameFormula(k, before, st.H(fc.p, k), entry.alloc, locs)
+			}})
+		}
 	}
 	// auto: allocation counter is monotone w.r.t. function entry
 	if mi.allocs {
